@@ -239,19 +239,28 @@ func runC11(t *simrt.Tape, o Opts) Outcome {
 				switch k := t.Choose(7, "op"); k {
 				case 0, 1:
 					depth := 1 + t.Choose(2, "nest")
-					prog = append(prog, fmt.Sprintf("s%d.WithBytes(depth %d)", ts.n, depth))
+					leave := cbLeave(t)
+					prog = append(prog, fmt.Sprintf("s%d.WithBytes(depth %d, callback %s)", ts.n, depth, cbLeaveNames[leave]))
 					guard("WithBytes", func() {
-						err := ts.sec.WithBytes(func(b []byte) error {
-							ts.inside++
-							defer func() { ts.inside-- }()
-							inspect(ts, b, "WithBytes")
-							if depth > 1 {
-								return ts.sec.WithBytes(func(b2 []byte) error { inspect(ts, b2, "nested WithBytes"); return nil })
-							}
-							return nil
+						var err error
+						unwound := callbackUnwinds(func() {
+							err = ts.sec.WithBytes(func(b []byte) error {
+								ts.inside++
+								defer func() { ts.inside-- }()
+								inspect(ts, b, "WithBytes")
+								if depth > 1 {
+									if e := ts.sec.WithBytes(func(b2 []byte) error { inspect(ts, b2, "nested WithBytes"); return nil }); e != nil {
+										return e
+									}
+								}
+								return leaveCallback(leave)
+							})
 						})
-						if (err != nil) != ts.closed {
-							violate("withbytes-result/"+im.name, "%s: WithBytes on a %s secret returned %v; after %v", im.name, map[bool]string{true: "closed", false: "live"}[ts.closed], err, prog)
+						if unwound {
+							return // the callback's own panic passed through to its caller, as it must
+						}
+						if (err != nil) != (ts.closed || leave == cbError) {
+							violate("withbytes-result/"+im.name, "%s: WithBytes on a %s secret (callback %s) returned %v; after %v", im.name, map[bool]string{true: "closed", false: "live"}[ts.closed], cbLeaveNames[leave], err, prog)
 						}
 					})
 					idleCheck(ts, "after WithBytes returned")
@@ -259,16 +268,24 @@ func runC11(t *simrt.Tape, o Opts) Outcome {
 						flagsCheck(ts)
 					}
 				case 2:
-					prog = append(prog, fmt.Sprintf("s%d.WithBytesFunc", ts.n))
+					leave := cbLeave(t)
+					prog = append(prog, fmt.Sprintf("s%d.WithBytesFunc(callback %s)", ts.n, cbLeaveNames[leave]))
 					guard("WithBytesFunc", func() {
-						out, err := ts.sec.WithBytesFunc(func(b []byte) ([]byte, error) {
-							ts.inside++
-							defer func() { ts.inside-- }()
-							inspect(ts, b, "WithBytesFunc")
-							return append([]byte(nil), b...), nil
+						var out []byte
+						var err error
+						unwound := callbackUnwinds(func() {
+							out, err = ts.sec.WithBytesFunc(func(b []byte) ([]byte, error) {
+								ts.inside++
+								defer func() { ts.inside-- }()
+								inspect(ts, b, "WithBytesFunc")
+								return append([]byte(nil), b...), leaveCallback(leave)
+							})
 						})
-						if (err != nil) != ts.closed {
-							violate("withbytes-result/"+im.name, "%s: WithBytesFunc on a %s secret returned %v", im.name, map[bool]string{true: "closed", false: "live"}[ts.closed], err)
+						if unwound {
+							return
+						}
+						if (err != nil) != (ts.closed || leave == cbError) {
+							violate("withbytes-result/"+im.name, "%s: WithBytesFunc on a %s secret (callback %s) returned %v", im.name, map[bool]string{true: "closed", false: "live"}[ts.closed], cbLeaveNames[leave], err)
 						} else if err == nil && ts.want != nil && !bytes.Equal(out, ts.want) {
 							violate("wrong-bytes/"+im.name, "%s: WithBytesFunc returned other bytes", im.name)
 						}
@@ -336,31 +353,35 @@ func runC11(t *simrt.Tape, o Opts) Outcome {
 			var tasks []*simrt.Task
 			for i := 0; i < nr; i++ {
 				nest := t.Choose(2, "r.nest") == 1
+				leave := cbLeave(t)
 				tasks = append(tasks, s.Go("reader", func() {
 					debug.SetPanicOnFault(true)
 					for k := 0; k < reads; k++ {
 						guard("concurrent WithBytes", func() {
-							err := ts.sec.WithBytes(func(b []byte) error {
-								ts.inside++
-								defer func() { ts.inside-- }()
-								if closeReturned {
-									violate("reader-after-close-returned/"+im.name, "%s: a reader callback started although a Close had already returned", im.name)
-								}
-								inspect(ts, b, "concurrent reader")
-								s.Point(simrt.KSeam, "reader.inside") // let closers and other readers run while we are inside
-								if closeReturned {
-									violate("closed-under-reader/"+im.name, "%s: Close returned while a reader callback was still running", im.name)
-								}
-								if nest {
-									_, e := ts.sec.WithBytesFunc(func(b2 []byte) ([]byte, error) {
-										inspect(ts, b2, "nested concurrent reader")
-										return nil, nil
-									})
-									_ = e // legitimately an error once a Close has begun
-									return nil
-								}
-								inspect(ts, b, "concurrent reader (2nd look)")
-								return nil
+							var err error
+							callbackUnwinds(func() {
+								err = ts.sec.WithBytes(func(b []byte) error {
+									ts.inside++
+									defer func() { ts.inside-- }()
+									if closeReturned {
+										violate("reader-after-close-returned/"+im.name, "%s: a reader callback started although a Close had already returned", im.name)
+									}
+									inspect(ts, b, "concurrent reader")
+									s.Point(simrt.KSeam, "reader.inside") // let closers and other readers run while we are inside
+									if closeReturned {
+										violate("closed-under-reader/"+im.name, "%s: Close returned while a reader callback was still running", im.name)
+									}
+									if nest {
+										_, e := ts.sec.WithBytesFunc(func(b2 []byte) ([]byte, error) {
+											inspect(ts, b2, "nested concurrent reader")
+											return nil, nil
+										})
+										_ = e // legitimately an error once a Close has begun
+										return leaveCallback(leave)
+									}
+									inspect(ts, b, "concurrent reader (2nd look)")
+									return leaveCallback(leave)
+								})
 							})
 							_ = err // an error is legitimate once a Close has begun
 						})
@@ -724,4 +745,54 @@ func runC12(t *simrt.Tape, o Opts) Outcome {
 func isNilSecret(s securememory.Secret) bool {
 	defer func() { recover() }()
 	return fmt.Sprintf("%v", s) == "<nil>"
+}
+
+// How a reader callback leaves: by returning nil, by returning an error, or by panicking (the caller
+// of WithBytes recovers). In every case the reader is no longer inside afterwards.
+const (
+	cbReturn = iota
+	cbError
+	cbPanic
+)
+
+var cbLeaveNames = [...]string{"returns", "returns an error", "panics"}
+
+type callbackPanic struct{}
+
+var errCallback = errors.New("verif: the reader callback reports an error")
+
+func cbLeave(t *simrt.Tape) int {
+	switch t.Choose(8, "callback.leaves") {
+	case 6:
+		return cbError
+	case 7:
+		return cbPanic
+	}
+	return cbReturn
+}
+
+func leaveCallback(leave int) error {
+	switch leave {
+	case cbError:
+		return errCallback
+	case cbPanic:
+		panic(callbackPanic{})
+	}
+	return nil
+}
+
+// callbackUnwinds runs fn and reports whether it was left by the callback's own panic; any other
+// panic is passed on.
+func callbackUnwinds(fn func()) (unwound bool) {
+	defer func() {
+		if r := recover(); r != nil {
+			if _, ok := r.(callbackPanic); ok {
+				unwound = true
+				return
+			}
+			panic(r)
+		}
+	}()
+	fn()
+	return false
 }
